@@ -158,6 +158,7 @@ func main() {
 	}
 
 	runCanaries()
+	longKeyProbe()
 
 	n := run.Pick(8000, 60000)
 	deadline := time.Now().Add(time.Duration(run.Pick(20, 90)) * time.Minute)
